@@ -11,6 +11,8 @@
   through both loaders, with a trailer after the image (self-delimitation) and for
   a second generation (save → load → save → load).
 -/
+import CSD.Generated.Bodies
+import CSD.Model.SourceText
 import CSD.Generated.Fields
 import CSD.Generated.Dispatch
 import CSD.Lemmas.PFCLoad
@@ -92,5 +94,15 @@ theorem pfc_loader_refuses_foreign_tag (tag : Nat) (ht : tag < 2 ^ 32) (hne : ta
   simp [hne]
 
 example : (saveFields.lookup "PFC").isSome = true := by decide
+
+/-- The models this file's theorems are about were written against the current text of the C++
+functions they mirror (`CSD/Generated/Bodies.lean` is re-extracted from the sources on every run,
+`CSD/Model/SourceText.lean` is what was reviewed): an edit of one of these functions breaks this
+obligation even if no generated input tells the behaviours apart. -/
+theorem models_match_source_text :
+    Generated.body_PFC_save = SourceText.body_PFC_save ∧
+    Generated.body_PFC_load = SourceText.body_PFC_load ∧
+    Generated.body_LogSequence_load = SourceText.body_LogSequence_load ∧
+    Generated.body_LogSequence_save = SourceText.body_LogSequence_save := ⟨rfl, rfl, rfl, rfl⟩
 
 end CSD.Props.C06
